@@ -507,6 +507,7 @@ class StarSet(object):
                 except:
                     continue
                 if not s.iszero() and not s in oldstateset: newstateset.add(s)
+        if len(newstateset) == 0: return self  # nothing new can be reached (confined network)
         # now to sort our set of vectors (easiest by magnitude, and then reduce down:
         self.states += sorted([s for s in newstateset], key=PairState.sortkey)
         Nnew = len(self.states)
